@@ -2,8 +2,8 @@
 
 Extracted verbatim: CompassApp::run.  What is NOT in it: the three rayon / itertools pipelines -- the input-plugin stage (`par_chunks .. partition_map .. unzip`),
 run_batch_with_responses and run_batch_without_responses -- are opaque helpers whose contracts ARE THE ASSUMPTION ABOUT RAYON (every element is processed exactly once,
-results keep the order of the input; Kani has no threads, Verus has no model of rayon): each accepted query contributes its expansion, each rejected one its error
-response; every balanced query is run once and written once; with responses kept, one response per balanced query comes back.  Progress bars, logging and `eprintln!`
+results keep the order of the input; Kani has no threads, Verus has no model of rayon): each query contributes the queries input processing made of it and the
+error responses of those a plugin rejected; every balanced query is run once and written once; with responses kept, one response per balanced query comes back.  Progress bars, logging and `eprintln!`
 are dropped (R7).  A ghost counter of `write_response` calls is threaded through (R-ghost).  What remains is the verbatim ORDER of the stages, the `?` exits, the early
 return and the choice between the two persistence policies -- the places where a wiring slip silently loses responses or records.
 """
@@ -60,12 +60,13 @@ impl ResponseSink {
 /// the chunk size handed to rayon (its `>= 1` is a Kani obligation of C12, rule R10)
 #[verifier::external_body] pub fn verif_chunk_size(n: usize, parallelism: usize) -> (r: usize) ensures r >= 1 { unimplemented!() }
 // ---- the input-plugin stage: ASSUMED (rayon par_chunks + itertools partition_map + unzip): every query is processed exactly once, order kept ----
-/// what input processing makes of one query: Ok(its expansion: one or more queries) or Err(its error response)
-pub uninterp spec fn expansions(q: Value, p: &InputPlugins) -> Result<Seq<Value>, Value>;
+/// what input processing (apply_input_plugins) makes of one query: the queries to run (the query itself, or the ones it was expanded into, minus those a plugin
+/// rejected) and the error responses of the rejected ones
+pub uninterp spec fn expansions(q: Value, p: &InputPlugins) -> (Seq<Value>, Seq<Value>);
 pub open spec fn accepted_total(qs: Seq<Value>, p: &InputPlugins, n: int) -> nat decreases n
-{ if n <= 0 || n > qs.len() { 0 } else { accepted_total(qs, p, n - 1) + (match expansions(qs[n - 1], p) { Ok(e) => e.len(), Err(_) => 0nat }) } }
+{ if n <= 0 || n > qs.len() { 0 } else { accepted_total(qs, p, n - 1) + expansions(qs[n - 1], p).0.len() } }
 pub open spec fn rejected_total(qs: Seq<Value>, p: &InputPlugins, n: int) -> nat decreases n
-{ if n <= 0 || n > qs.len() { 0 } else { rejected_total(qs, p, n - 1) + (match expansions(qs[n - 1], p) { Ok(_) => 0nat, Err(_) => 1nat }) } }
+{ if n <= 0 || n > qs.len() { 0 } else { rejected_total(qs, p, n - 1) + expansions(qs[n - 1], p).1.len() } }
 pub open spec fn total2(v: Seq<Vec<Vec<Value>>>, n: int) -> nat decreases n { if n <= 0 || n > v.len() { 0 } else { total2(v, n - 1) + total1(v[n - 1]@, v[n - 1]@.len() as int) } }
 pub open spec fn total1(v: Seq<Vec<Value>>, n: int) -> nat decreases n { if n <= 0 || n > v.len() { 0 } else { total1(v, n - 1) + v[n - 1]@.len() } }
 #[verifier::external_body]
@@ -119,7 +120,7 @@ def build(x):
     x.note("R7", "run: the two progress bars (`Bar::builder()..build().map_err(..)?; Arc::new(Mutex::new(..))`) written verif_progress_bar(total)? (can fail, as in the real code); log::info! / eprintln! statements removed; the `proc_batch_sizes` vector that only feeds a log statement removed")
     f.rewrite(r"let plugin_chunk_size =\s*\(\(queries\.len\(\) as f64 / self\.parallelism as f64\)\.ceil\(\) as usize\)\.max\(1\);", "let plugin_chunk_size = verif_chunk_size(queries.len(), self.parallelism);", 1, 1, rule="R-cast")
     # the input stage
-    pat = re.compile(r"let input_plugin_result: \(Vec<_>, Vec<_>\) = queries\s*\.par_chunks\(plugin_chunk_size\).*?\.unzip\(\);", re.S)
+    pat = re.compile(r"let input_plugin_result: \(Vec<_>, Vec<_>\) = queries\s*\.par_chunks\(plugin_chunk_size\).*\.unzip\(\);(?=\s*(?://[^\n]*\n\s*)*let \(processed_inputs_nested, error_inputs_nested\))", re.S)
     if len(pat.findall(f.text)) != 1:
         raise G.Undecided("lost anchor: the input-plugin stage of CompassApp::run")
     f.rewrite(pat.pattern, "let input_plugin_result: (Vec<Vec<Vec<Value>>>, Vec<Vec<Value>>) = verif_input_stage(&queries, plugin_chunk_size, &self.input_plugins, &input_pb_shared);", 1, 1, rule="R-rayon", flags=re.S)
